@@ -29,6 +29,9 @@ type Config struct {
 	Params             map[string]int  // harness parameters (vParam)
 	UFs                map[string]bool // functions summarised as uninterpreted functions
 	Noops              map[string]bool // functions replaced by a no-op returning zero values
+	Fixed              []InputVal      // debugging: concrete values for the harness inputs
+	fixedChoose        func(in *Interp) (int, bool)
+	Trace              bool
 }
 
 func DefaultConfig() *Config {
